@@ -212,6 +212,27 @@ pub fn run(tier: &str, seed: u64, replay: Option<String>) -> i32 {
             });
         }
     }
+    // generated projects: a used definition and a used twin of it that differs in one value (two
+    // elements that must not share an id, whatever value it is)
+    for f in &files {
+        let lines = diskfault::split_lines(&f.text);
+        for b in diskfault::scan_blocks(&lines) {
+            if !matches!(b.btype.as_str(), "MATERIAL" | "GLASS-TYPE" | "NAME-FRAME" | "GAP" | "LAYERS") {
+                continue;
+            }
+            for attr in 0..8 {
+                line_jobs.push(DJob {
+                    file: f.rel.clone(),
+                    edit: Edit::TwinUsed { line: b.start, attr },
+                    cell: format!("{}|{}|twin_used|attr{}|{}", f.kind.as_str(), b.btype, attr, b.start % 4),
+                    level: 1,
+                    e2e: false,
+                    closure: true,
+                    cost: f.text.len(),
+                });
+            }
+        }
+    }
     // generated projects: a block pasted under another parent (the same name in two spaces /
     // walls / floors)
     for f in &files {
